@@ -171,6 +171,8 @@ def hypothesis_shard(item: dict[str, Any]) -> Collector:
             rel = kind == "finite" and draw(st.booleans())
             types.append(2 if rel else 1)
             mags.append(draw(st.sampled_from([0.001, 0.01, 0.1, 0.5] if rel else [0.001, 0.05, 0.5, 2.0])))
+            if draw(st.integers(0, 5)) == 0:  # a negative magnitude is a magnitude too: it mirrors the samples of that variable
+                mags[-1] = -mags[-1]
         amp = draw(st.sampled_from([1.0, 1.0, 5.0, 60.0, 3000.0]))
         sample = st.one_of(st.sampled_from([-1.0, 1.0, 0.0, 0.5, -0.25]), st.floats(-1, 1, allow_nan=False, width=32).map(float))
         s_n = draw(st.integers(1, 3))
